@@ -123,7 +123,7 @@ def make_overrides(eng):
 
 # ------------------------------------------------------------ L6: include faults
 
-INC_FAULTS = ["missing", "directory", "undecodable", "ok", "empty", "bad-start-after", "bad-option", "no-arg", "nul-in-name"]
+INC_FAULTS = ["missing", "directory", "undecodable", "ok", "empty", "bad-start-after", "bad-option", "no-arg", "nul-in-name", "self", "mutual", "twice"]
 
 
 def make_include(eng):
@@ -142,13 +142,26 @@ def make_include(eng):
         except Exception as exc:  # noqa
             eng.fail("pipeline-raises", _where(exc))
         eng.passed(1)
-        if fault not in ("ok", "empty") and ("ERROR" in warn or "SEVERE" in warn or "WARNING" in warn):
+        err = check_include_text(fault, form, doc)
+        if err:
+            eng.fail(*err)
+        harmless = ("ok", "empty", "twice") + (("self", "mutual") if form != "plain" else ())  # (a file may show itself as literal text)
+        if fault not in harmless and ("ERROR" in warn or "SEVERE" in warn or "WARNING" in warn):
             eng.note("fault-reported")
-        elif fault not in ("ok", "empty"):
+        elif fault not in harmless:
             eng.fail("fault-not-reported", "include fault %s (%s) produced no message" % (fault, form))
         return "ok"
 
     return body
+
+
+def check_include_text(fault, form, doc):
+    text = doc.astext()
+    if "after" not in text or "before" not in text:
+        return ("include-disturbs-document", "include fault %s (%s): the text around the directive is gone" % (fault, form))
+    if fault == "twice" and text.count("included") != 2:
+        return ("include-twice", "the same file included twice in a row appears %d times" % text.count("included"))
+    return None
 
 
 def run_include(fault, form, real=False):
@@ -158,13 +171,18 @@ def run_include(fault, form, real=False):
         open(os.path.join(d, "ok.md"), "w").write("included *text*\n")
         open(os.path.join(d, "empty.md"), "w").write("")
         arg = {"missing": "nosuch.md", "directory": "adir", "undecodable": "bin.md", "ok": "ok.md", "empty": "empty.md", "bad-start-after": "ok.md", "bad-option": "ok.md", "no-arg": "",
-               "nul-in-name": "a\\x00b.md"}[fault]
+               "nul-in-name": "a\\x00b.md", "self": "src.md", "mutual": "other.md", "twice": "ok.md"}[fault]
         opts = {"plain": [], "literal": [":literal:"], "code": [":code: python"]}[form]
         if fault == "bad-start-after":
             opts = opts + [":start-after: NOSUCHTEXT"]
         if fault == "bad-option":
             opts = opts + [":start-line: x", ":nosuch: 1"]
         text = "before\n\n```{include} %s\n%s```\n\nafter\n" % (arg, "".join(o + "\n" for o in opts))
+        if fault == "twice":
+            text = text.replace("\n\nafter\n", "\n\n```{include} ok.md\n%s```\n\nafter\n" % "".join(o + "\n" for o in opts))
+        # a file that includes itself, directly or through another file
+        open(os.path.join(d, "src.md"), "w").write(text)
+        open(os.path.join(d, "other.md"), "w").write("other\n\n```{include} src.md\n```\n")
         return CR.publish(text, {"report_level": 2}, real=real, source=os.path.join(d, "src.md"))
 
 
@@ -746,7 +764,11 @@ def replay(label, witness):
             return None
         if "fault" in witness:
             doc, warn = run_include(witness["fault"], witness["form"], real=True)
-            if witness["fault"] not in ("ok", "empty") and not any(w in warn for w in ("ERROR", "SEVERE", "WARNING")):
+            err = check_include_text(witness["fault"], witness["form"], doc)
+            if err:
+                return ("C01/%s" % err[0], err[1])
+            harmless = ("ok", "empty", "twice") + (("self", "mutual") if witness["form"] != "plain" else ())
+            if witness["fault"] not in harmless and not any(w in warn for w in ("ERROR", "SEVERE", "WARNING")):
                 return ("C01/fault-not-reported:include", "include fault %s not reported" % witness["fault"])
             return None
         if "dest" in witness:
